@@ -1,5 +1,5 @@
 (* C20/Properties.v — property theorems only. *)
-From Relic Require Import Base.Prelude Generated.C20_gen C20.Model C20.Proofs.
+From Relic Require Import Base.Prelude Generated.C20_gen C20.Model C20.Proofs C20.Lock C20.LockProofs.
 
 (* the endpoint reports failure exactly when disabled, stale for three intervals, or the last N checks all failed —
    for every threshold N >= 1, every history of rounds over any number of tokens, every query time *)
@@ -22,4 +22,112 @@ Example three_failures_trip :
   let hist := [mkR [true; true] 10; mkR [true; false] 20; mkR [false] 30; mkR [false; false] 40] in
   spec_healthy false 10 3 0 hist 41 = false /\ spec_healthy false 10 3 0 (removelast hist) 31 = true /\
   h_healthy false 10 (h_run 3 0 hist) 41 = false.
+Proof. vm_compute. repeat split. Qed.
+
+(* ================= lock discipline and concurrency (C20/Lock.v) ================= *)
+
+(* the source has the shape the dynamic model assumes; healthCheck never starts a ping while it holds healthMu, releases
+   it on every return, and tests s.Closed before each ping *)
+Theorem hc_plan_good : good_plan hc_plan /\ p_closed_check hc_plan = true.
+Proof. exact C20.LockProofs.hc_plan_good. Qed.
+(* Healthy neither pings nor blocks under healthMu and releases it on every return *)
+Theorem healthy_plan_good : good_qplan healthy_plan.
+Proof. exact C20.LockProofs.healthy_plan_good. Qed.
+(* every read and write of healthStatus / healthLastPing in healthCheck, Healthy and serveHealth is made under healthMu *)
+Theorem shared_state_locked :
+  locked_access hc_events = true /\ locked_access healthy_events = true /\ locked_access serve_health_events = true.
+Proof. exact C20.LockProofs.shared_state_locked. Qed.
+(* none of healthCheck, Healthy, serveHealth, pingOne pings or blocks while holding healthMu or returns with it locked;
+   pingOne does not touch the mutex at all *)
+Theorem lock_released_and_never_held_over_a_ping :
+  lock_clean hc_events = true /\ lock_clean healthy_events = true /\ lock_clean serve_health_events = true /\
+  lock_clean ping_one_events = true /\ count 1 ping_one_events = 0.
+Proof. exact C20.LockProofs.lock_released_and_never_held_over_a_ping. Qed.
+(* step level, for every number of tokens n: the unrolled round makes exactly n pings, healthMu free at each of them *)
+Theorem no_ping_under_lock : forall n,
+  forallb negb (pings_held false (unroll hc_events n)) = true /\
+  zlen (pings_held false (unroll hc_events n)) = Z.of_nat n.
+Proof. exact C20.LockProofs.no_ping_under_lock. Qed.
+
+(* for every configuration, every interleaving of time, round starts, ping returns (each after an arbitrary time or
+   never), queries and Close: every query is answered — never blocked — and the answer is what the property demands of
+   the rounds PUBLISHED at that moment (spec_healthy over the ghost history, at the query's own time) *)
+Theorem queries_answered_from_published : forall P Q C t0 now0 sched,
+  good_plan P -> good_qplan Q -> 1 <= c_failures C ->
+  snd (run_sys P Q C (init C t0 now0) sched) = spec_obs P Q C t0 (init C t0 now0) sched.
+Proof. intros. apply C20.LockProofs.queries_answered_from_published; try assumption. apply C20.LockProofs.init_inv. Qed.
+Theorem queries_never_block : forall P Q C t0 now0 sched,
+  good_plan P -> good_qplan Q -> 1 <= c_failures C ->
+  forallb is_answer (snd (run_sys P Q C (init C t0 now0) sched)) = true.
+Proof. exact C20.LockProofs.queries_never_block. Qed.
+(* instantiated with the plans computed from the current source *)
+Theorem health_endpoint_concurrent : forall C t0 now0 sched, 1 <= c_failures C ->
+  snd (run_sys hc_plan healthy_plan C (init C t0 now0) sched) = spec_obs hc_plan healthy_plan C t0 (init C t0 now0) sched.
+Proof.
+  intros. apply queries_answered_from_published; try assumption.
+  - exact (proj1 C20.LockProofs.hc_plan_good).
+  - exact C20.LockProofs.healthy_plan_good.
+Qed.
+(* the published history grows only when the last ping of a round returns, stamped with that moment *)
+Theorem published_on_completion : forall P Q C t0 s a,
+  good_plan P -> good_qplan Q -> inv C t0 s ->
+  let s' := fst (step P Q C s a) in
+  s_hist s' = s_hist s \/
+  (exists ok notok ll, a = APing ok /\ s_phase s = CPing 1 notok ll /\ s_hist s' = s_hist s ++ [mkR (s_cur s ++ [ok]) (s_now s)]) \/
+  (a = ABegin /\ s_phase s = CIdle /\ c_tokens C = O /\ s_hist s' = s_hist s ++ [mkR [] (s_now s)]).
+Proof. exact C20.LockProofs.published_on_completion. Qed.
+(* the staleness clause fires while a round is in flight, after any interleaving *)
+Theorem stale_reported_in_flight : forall P Q C t0 now0 sched,
+  good_plan P -> good_qplan Q -> 1 <= c_failures C ->
+  let s := fst (run_sys P Q C (init C t0 now0) sched) in
+  s_now s - last_completed t0 (s_hist s) > 3 * c_interval C ->
+  snd (query Q C s) = OAns false (s_now s).
+Proof. exact C20.LockProofs.stale_reported_in_flight. Qed.
+(* and not before: fresh published state with fewer than N trailing failures answers healthy, round in flight or not *)
+Theorem fresh_healthy_in_flight : forall P Q C t0 now0 sched,
+  good_plan P -> good_qplan Q -> 1 <= c_failures C -> c_disabled C = false ->
+  let s := fst (run_sys P Q C (init C t0 now0) sched) in
+  s_now s - last_completed t0 (s_hist s) <= 3 * c_interval C ->
+  trailing_failures (s_hist s) < c_failures C ->
+  snd (query Q C s) = OAns true (s_now s).
+Proof. exact C20.LockProofs.fresh_healthy_in_flight. Qed.
+(* Close: no ping is started once the server is closed; Close itself returns only after the loop has returned *)
+Theorem no_ping_started_after_close : forall P Q C t0 now0 sched,
+  p_closed_check P = true -> s_late (fst (run_sys P Q C (init C t0 now0) sched)) = 0.
+Proof. exact C20.LockProofs.no_ping_started_after_close. Qed.
+Theorem close_joins : close_joins_loop = true.
+Proof. exact C20.LockProofs.close_joins. Qed.
+Theorem checker_never_stuck : forall P Q C t0 now0 sched,
+  good_plan P -> good_qplan Q -> s_phase (fst (run_sys P Q C (init C t0 now0) sched)) <> CStuck.
+Proof. exact C20.LockProofs.checker_never_stuck. Qed.
+(* necessity: ANY healthCheck that pings under healthMu blocks every query made while its first ping is in flight,
+   for as long as that takes *)
+Theorem ping_under_lock_blocks : forall P Q C t0 now0 ticks,
+  p_ping_locked P = true -> (1 <= c_tokens C)%nat -> q_locks Q = true -> q_early Q && c_disabled C = false ->
+  exists t, snd (run_sys P Q C (init C t0 now0) (ABegin :: map ATick ticks ++ [AQuery])) = [OBlocked t].
+Proof. exact C20.LockProofs.ping_under_lock_blocks. Qed.
+
+(* non-vacuity.  One slow token among three, N = 2, interval 1000: the round is in flight from t = 0; the last published
+   state is 2700 old.  A query at once is answered healthy, one 600 later is answered unhealthy (stale), and after the
+   slow ping returns ok the round is published and the next query is healthy again. *)
+Example slow_token_scenario :
+  let C := mkCfg 2 false 1000 3 in
+  snd (run_sys hc_plan healthy_plan C (init C (-2700) 0)
+        [ABegin; APing true; AQuery; ATick 600; AQuery; APing true; AQuery; APing false; AQuery; AClose; ABegin; AQuery])
+  = [OAns true 0; OAns false 600; OAns false 600; OAns true 600; OAns true 600].
+Proof. vm_compute. reflexivity. Qed.
+(* the shape of a healthCheck that holds healthMu for the whole round (lock; defer unlock; read; pings; write) is
+   understood by the analysis, is flagged, and the dynamic model then blocks the same queries *)
+Example whole_round_under_lock_blocks :
+  let evs := [1; 3; 4; 11; 9; 13; 10; 14; 8; 12; 6; 7; 10] in
+  analyze evs = Some (mkPlan true true false false) /\
+  let C := mkCfg 2 false 1000 1 in
+  snd (run_sys (mkPlan true true false false) healthy_plan C (init C (-2700) 0) [ABegin; AQuery; ATick 600; AQuery; APing true; AQuery])
+  = [OBlocked 0; OBlocked 600; OAns true 600].
+Proof. vm_compute. split; reflexivity. Qed.
+(* shapes the analysis rejects or flags: unlock missing on the Closed return; write outside the lock; second Lock while held *)
+Example flagged_shapes :
+  analyze [1; 4; 11; 9; 13; 10; 14; 8; 12; 6; 7; 2; 10] = Some (mkPlan true true true false) /\
+  locked_access [1; 4; 2; 11; 8; 12; 6; 7; 10] = false /\
+  analyze [1; 4; 11; 8; 12; 1; 6; 7; 2; 10] = None.
 Proof. vm_compute. repeat split. Qed.
